@@ -97,6 +97,8 @@ type Driver struct {
 	Cur   map[string]string // key -> current implementation version string (as last reported)
 	Stale map[string]string // key -> some older version string of this key
 	Base  time.Time         // "now" used to compute expiry instants
+	// ExpDur maps the expiry code of an Op to a duration after Base (default: none, +1h, +100h)
+	ExpDur []time.Duration
 }
 
 func NewDriver(name string, st kvs.Storage, base time.Time) *Driver {
@@ -104,6 +106,13 @@ func NewDriver(name string, st kvs.Storage, base time.Time) *Driver {
 }
 
 func (d *Driver) exp(e int) *time.Time {
+	if d.ExpDur != nil {
+		if e == 0 {
+			return nil
+		}
+		t := d.Base.Add(d.ExpDur[e])
+		return &t
+	}
 	switch e {
 	case 1:
 		t := d.Base.Add(time.Hour)
@@ -131,7 +140,7 @@ func (d *Driver) bind(key, s string, tok int) string {
 	return ""
 }
 
-func (d *Driver) verArg(key string, k VerKind) (string, bool) {
+func (d *Driver) VerArg(key string, k VerKind) (string, bool) {
 	switch k {
 	case VCurrent:
 		s, ok := d.Cur[key]
@@ -176,7 +185,7 @@ func (d *Driver) checkRec(what, key string, got kvs.Record, want *MRec) string {
 	return ""
 }
 
-func errClass(err error) string {
+func ErrClass(err error) string {
 	switch {
 	case err == nil:
 		return "nil"
@@ -277,8 +286,8 @@ func (d *Driver) Exec(o Op, w Want) (clause, detail string) {
 	switch o.Kind {
 	case "create":
 		ver, err := d.St.Create(ctx, kvs.Record{Key: o.Key, Value: values[o.Val], ExpiresAt: d.exp(o.Exp), Version: "caller-supplied"})
-		if errClass(err) != w.Err {
-			return bad("error", "returned %s, contract says %s", errClass(err), w.Err)
+		if ErrClass(err) != w.Err {
+			return bad("error", "returned %s, contract says %s", ErrClass(err), w.Err)
 		}
 		if err == nil {
 			if msg := d.bind(o.Key, ver, w.Tok); msg != "" {
@@ -289,8 +298,8 @@ func (d *Driver) Exec(o Op, w Want) (clause, detail string) {
 		}
 	case "put":
 		r, err := d.St.Put(ctx, kvs.Record{Key: o.Key, Value: values[o.Val], ExpiresAt: d.exp(o.Exp), Version: "caller-supplied"})
-		if errClass(err) != w.Err {
-			return bad("error", "returned %s, contract says %s", errClass(err), w.Err)
+		if ErrClass(err) != w.Err {
+			return bad("error", "returned %s, contract says %s", ErrClass(err), w.Err)
 		}
 		if msg := d.bind(o.Key, r.Version, w.Tok); msg != "" {
 			return bad("version", "%s", msg)
@@ -304,8 +313,8 @@ func (d *Driver) Exec(o Op, w Want) (clause, detail string) {
 			rs = append(rs, kvs.Record{Key: k, Value: values[o.Vals[i]], ExpiresAt: d.exp(o.Exps[i]), Version: "caller-supplied"})
 		}
 		err := d.St.PutMany(ctx, rs)
-		if errClass(err) != w.Err {
-			return bad("error", "returned %s, contract says %s", errClass(err), w.Err)
+		if ErrClass(err) != w.Err {
+			return bad("error", "returned %s, contract says %s", ErrClass(err), w.Err)
 		}
 		// the new versions are only observable through Get: learn them now
 		last := map[string]int{}
@@ -326,8 +335,8 @@ func (d *Driver) Exec(o Op, w Want) (clause, detail string) {
 		}
 	case "get":
 		r, err := d.St.Get(ctx, o.Key)
-		if errClass(err) != w.Err {
-			return bad("error", "returned %s, contract says %s", errClass(err), w.Err)
+		if ErrClass(err) != w.Err {
+			return bad("error", "returned %s, contract says %s", ErrClass(err), w.Err)
 		}
 		if err == nil {
 			if msg := d.checkRec("Get", o.Key, r, w.Rec); msg != "" {
@@ -336,8 +345,8 @@ func (d *Driver) Exec(o Op, w Want) (clause, detail string) {
 		}
 	case "getmany":
 		rs, err := d.St.GetMany(ctx, o.Keys...)
-		if errClass(err) != w.Err {
-			return bad("error", "returned %s, contract says %s", errClass(err), w.Err)
+		if ErrClass(err) != w.Err {
+			return bad("error", "returned %s, contract says %s", ErrClass(err), w.Err)
 		}
 		if len(rs) != len(o.Keys) {
 			return bad("length", "returned %d entries for %d keys", len(rs), len(o.Keys))
@@ -353,13 +362,13 @@ func (d *Driver) Exec(o Op, w Want) (clause, detail string) {
 			}
 		}
 	case "cas":
-		ver, ok := d.verArg(o.Key, o.Ver)
+		ver, ok := d.VerArg(o.Key, o.Ver)
 		if !ok {
 			ver = "01HZZZZZZZZZZZZZZZZZZZZZZY"
 		}
 		r, err := d.St.CasByVersion(ctx, kvs.Record{Key: o.Key, Value: values[o.Val], ExpiresAt: d.exp(o.Exp), Version: ver})
-		if errClass(err) != w.Err {
-			return bad("error", "with version %s returned %s, contract says %s", o.Ver, errClass(err), w.Err)
+		if ErrClass(err) != w.Err {
+			return bad("error", "with version %s returned %s, contract says %s", o.Ver, ErrClass(err), w.Err)
 		}
 		if err == nil {
 			if msg := d.bind(o.Key, r.Version, w.Tok); msg != "" {
@@ -371,8 +380,8 @@ func (d *Driver) Exec(o Op, w Want) (clause, detail string) {
 		}
 	case "delete":
 		err := d.St.Delete(ctx, o.Key)
-		if errClass(err) != w.Err {
-			return bad("error", "returned %s, contract says %s", errClass(err), w.Err)
+		if ErrClass(err) != w.Err {
+			return bad("error", "returned %s, contract says %s", ErrClass(err), w.Err)
 		}
 		if err == nil {
 			if c, ok := d.Cur[o.Key]; ok {
@@ -382,8 +391,8 @@ func (d *Driver) Exec(o Op, w Want) (clause, detail string) {
 		}
 	case "list":
 		it, err := d.St.ListKeys(ctx, o.Pat)
-		if errClass(err) != w.Err {
-			return bad("error", "returned %s, contract says %s", errClass(err), w.Err)
+		if ErrClass(err) != w.Err {
+			return bad("error", "returned %s, contract says %s", ErrClass(err), w.Err)
 		}
 		got := []string{}
 		for it.HasNext() {
@@ -420,7 +429,7 @@ func (d *Driver) Observe(o Op, m *Model, keys []string) (clause, detail string) 
 		r, err := d.St.Get(ctx, k)
 		mr, ok := m.Recs[k]
 		if ok != (err == nil) {
-			return d.Name + " " + o.Target() + ":then presence of " + k, fmt.Sprintf("%s: after %v Get(%s) = %s, model present=%v", d.Name, o, k, errClass(err), ok)
+			return d.Name + " " + o.Target() + ":then presence of " + k, fmt.Sprintf("%s: after %v Get(%s) = %s, model present=%v", d.Name, o, k, ErrClass(err), ok)
 		}
 		if ok {
 			if msg := d.checkRec("Get", k, r, mr); msg != "" {
@@ -429,6 +438,33 @@ func (d *Driver) Observe(o Op, m *Model, keys []string) (clause, detail string) 
 		}
 	}
 	return "", ""
+}
+
+// CanonKeyAt is CanonKey with expiry expressed as remaining lifetime at now.
+func (m *Model) CanonKeyAt(d *Driver, keys []string, now time.Time) string {
+	var b strings.Builder
+	for _, k := range keys {
+		r, ok := m.Recs[k]
+		if !ok {
+			b.WriteString("-")
+		} else {
+			e := "0"
+			if r.Exp != nil {
+				// bucketed remaining lifetime: sound because the harness only moves time in steps that
+				// either expire every "short" record or no "long" one (see C06 main)
+				e = "long"
+				if r.Exp.Sub(now) <= 5*time.Second {
+					e = "short"
+				}
+			}
+			fmt.Fprintf(&b, "%s/%s", string(r.Val), e)
+		}
+		if _, ok := d.Stale[k]; ok {
+			b.WriteString("+s")
+		}
+		b.WriteString("|")
+	}
+	return b.String()
 }
 
 // CanonKey is the canonical model state for deduplication.
